@@ -153,4 +153,4 @@ for variant, updater, bound, other, better, measure in (
             loops={1: lc},
             ensures=([("C03.result_in_domain", f"implies(result is not None, {OBJ_LO} <= result[variable_idx] and result[variable_idx] <= {OBJ_HI})"),
                       ("C03.problem", f"same({ROOT})")] if not is_q else []) + extra_ens,
-            tags={"C03": ["C03"], "C11": ["C11"], "wf": ["C16"], "C01": ["C03"], "C02": ["C03"], "C17": ["C03"]}, arities=[])
+            tags={"C03": ["C03"], "C11": ["C11", "C03"], "wf": ["C16"], "C01": ["C03"], "C02": ["C03"], "C17": ["C03"]}, arities=[])
